@@ -920,6 +920,21 @@ func Corpus(tier string, embedded []*Schema) []*Schema {
 		mr.field("a", 1, tString, "")
 		gr.MessageType = append(gr.MessageType, mr.msg)
 		add(&Schema{Name: "featrev", Files: []*descriptorpb.FileDescriptorProto{gr}, Param: "features=fast+protoc"})
+		// "all" spelt together with a feature it already contains, over a schema that needs the reserved-name rename
+		for i, prm := range []string{"features=all+protoc", "features=protoc+all"} {
+			nm := fmt.Sprintf("featall%d", i+1)
+			ga := file("vc/"+nm+".proto", "vc."+nm, goPkg(nm, ""))
+			ma := newMsg("vc."+nm, "M")
+			ma.field("type", 1, tString, "")
+			ma.field("range", 2, tInt32, "")
+			oa := ma.oneof("get")
+			ma.member(oa, "set", 3, tInt64, "")
+			ma.member(oa, "has", 4, tBool, "")
+			na := ma.nested("Inner")
+			na.field("descriptor", 1, tString, "")
+			ga.MessageType = append(ga.MessageType, ma.msg)
+			add(&Schema{Name: nm, Files: []*descriptorpb.FileDescriptorProto{ga}, Param: prm})
+		}
 	}
 
 	// ---- deprecated fields, messages, enums, enum values and oneof members (comments emitted around their Go API)
